@@ -22,3 +22,13 @@ package core
 
 // Two-state facts used in the contracts of unknown code: the configured membership does not change.
 //@ pred cfgstable() = forall cfg *RuntimeConfig :: len(cfg.replicas) == old(len(cfg.replicas))
+
+// The network: unknown code; the ghost trace `timeoutsent` logs the views of the timeout
+// messages handed to it.
+//@ interface Sender.Timeout
+//@   emits timeoutsent(msg.View)
+//@   preserves @std
+//@   ensures blockchain.storeskept() && cfgstable()
+//@ interface Sender.NewView
+//@   preserves @std
+//@   ensures blockchain.storeskept() && cfgstable()
